@@ -489,7 +489,7 @@ func (e *Engine) inflightOf(a common.Address) int {
 
 // queueAffecting classifies a planned submission of m.
 func (e *Engine) queueAffecting(m *MTx) bool {
-	if !m.BasicOK || m.Pure {
+	if !e.validNow(m) || m.Pure {
 		return false
 	}
 	c := e.committedNonce(m.From)
@@ -814,7 +814,7 @@ func (e *Engine) stepRelease(parked []*flight) {
 // entersQueueNow: would m, entering the pool right now, end in the node's
 // future queue (nonce ahead of the executable one, or the pool full)?
 func (e *Engine) entersQueueNow(m *MTx) bool {
-	if !m.BasicOK || m.Pure {
+	if !e.validNow(m) || m.Pure {
 		return false
 	}
 	c := e.committedNonce(m.From)
@@ -826,6 +826,22 @@ func (e *Engine) entersQueueNow(m *MTx) bool {
 	}
 	if m.Nonce == c+uint64(len(e.offeredBy[m.From])) && len(e.offered)+1 <= e.W.Cfg.Mem.Size && len(e.offered)+1 <= e.W.Cfg.Mem.MaxReapSize {
 		return false
+	}
+	return true
+}
+
+// validNow: does m pass the basic check against the committed state (by
+// construction: well-formed, legal gas for what its destination is now)?
+func (e *Engine) validNow(m *MTx) bool {
+	o := m
+	if x := e.byHash[m.Hash]; x != nil {
+		o = x
+	}
+	if !o.BasicOK {
+		return false
+	}
+	if o.Kind == "ccall" || o.Kind == "kill" {
+		return e.hasCode(o.Target)
 	}
 	return true
 }
@@ -1163,7 +1179,7 @@ func (e *Engine) externalBlock() {
 			var cand *types.Transaction
 			if useFlight {
 				for _, f := range e.inflight {
-					if tr, ok := f.m.Tx.(*types.Transaction); ok && f.m.From == u.Addr && f.m.Nonce == n && f.m.BasicOK {
+					if tr, ok := f.m.Tx.(*types.Transaction); ok && f.m.From == u.Addr && f.m.Nonce == n && e.validNow(f.m) && !killed[f.m.Target] {
 						cand = tr
 					}
 				}
